@@ -90,6 +90,20 @@ fn scenarios(seed: u64, tier: Tier) -> Vec<Scenario> {
                 }
             }
         }
+        // the destination has a second name (a hard link: `current.jbk` / `v1.jbk` pairs, `cp -al`
+        // snapshots): replacing it must still be one rename, never a rewrite of the shared inode
+        out.push(Scenario {
+            id: format!("{}-none-n1-old-hardlinked", packaging.name()),
+            packaging,
+            comp: Comp::None,
+            n: 1,
+            preexisting: true,
+            sim_source: false,
+            extra: false,
+            old_packaging: None,
+            seed: simcore::prng::hash_label(seed, "c09-scenario-hardlink", k),
+        });
+        k += 1;
         // input-stream faults
         out.push(Scenario {
             id: format!("{}-simsrc", packaging.name()),
@@ -555,8 +569,10 @@ fn injections(s: &Scenario, r: &Reference, tier: Tier) -> Vec<Inject> {
             decision: IoDecision::Fail(28), // ENOSPC
         });
         if kind == "write" {
-            // every byte offset of every write is a crash point
-            for b in 1..=*len {
+            // every byte offset of every write is a crash point (the hard-link scenarios, which
+            // repeat a scenario that is enumerated in full, take one offset per write)
+            let offsets: Vec<usize> = if s.id.contains("hardlinked") { vec![(*len).max(1) / 2 + 1] } else { (1..=*len).collect() };
+            for b in offsets.into_iter().filter(|b| *b <= *len) {
                 out.push(Inject::Io {
                     k,
                     decision: IoDecision::DieAfter(b),
@@ -601,7 +617,7 @@ fn injections(s: &Scenario, r: &Reference, tier: Tier) -> Vec<Inject> {
     }
     // hook-free cross-check: the kernel's file size limit as fault source, every limit up to the
     // largest output file (strided in the quick tier), killing and failing variants
-    if !s.preexisting && !s.sim_source {
+    if (!s.preexisting || s.id.contains("hardlinked")) && !s.sim_source {
         let largest = r.files.iter().map(|(_, b)| b.len() as u64).max().unwrap_or(0);
         let stride = if tier == Tier::Quick { 13 } else { 1 };
         let mut l = 0;
@@ -809,6 +825,9 @@ pub fn worker_main(args: &Args, w: usize, n: usize) -> ! {
             if let Some(old) = &old_ref {
                 for (name, bytes) in &old.files {
                     std::fs::write(case_dir.join(name), bytes).unwrap();
+                }
+                if s.id.contains("hardlinked") {
+                    let _ = std::fs::hard_link(case_dir.join(format!("{NAME}.jbk")), case_dir.join(format!("{NAME}.jbk.other-name")));
                 }
             }
             let status = run_child(&sc_file, &case_dir, inject, false, 20_000);
@@ -1021,6 +1040,9 @@ pub fn replay_main(args: &Args, file: &str) -> ! {
     if let Some(old) = &old_ref {
         for (name, bytes) in &old.files {
             std::fs::write(case_dir.join(name), bytes).unwrap();
+        }
+        if s.id.contains("hardlinked") {
+            let _ = std::fs::hard_link(case_dir.join(format!("{NAME}.jbk")), case_dir.join(format!("{NAME}.jbk.other-name")));
         }
     }
     let status = run_child(&sc_file, &case_dir, &inject, false, 20_000);
